@@ -27,6 +27,7 @@ func Parse(levels map[string]string) (*Opts, *evid.Run) {
 	flag.StringVar(&o.Scratch, "scratch", "", "scratch directory (removed by the caller)")
 	flag.StringVar(&o.Repo, "repo", "/repo", "repository under test")
 	flag.StringVar(&o.Replay, "replay", "", "replay file: re-execute only the stored case")
+	onlyFlag := flag.String("only", "", "debug: run only the cases whose key has this prefix")
 	flag.Parse()
 	level, ok := levels[o.Prop]
 	if !ok {
@@ -59,6 +60,9 @@ func Parse(levels map[string]string) (*Opts, *evid.Run) {
 		o.Tier, o.Seed, only = rf.Tier, rf.Seed, rf.Key
 	}
 	run := evid.New(o.Prop, o.Tier, level, o.Seed, o.Out)
+	if *onlyFlag != "" {
+		only = *onlyFlag
+	}
 	run.Only = only
 	return o, run
 }
